@@ -306,5 +306,7 @@ def _poll_loop(executor_ref):
         poll_event = executor._poll_event
         del executor
 
-        poll_event.wait(next_sleep)
+        # (bounded: a wait beyond threading.TIMEOUT_MAX raises OverflowError,
+        # which would end this thread; after waking up early we just poll again)
+        poll_event.wait(min(next_sleep, MAX_TIMEOUT))
         poll_event.clear()
